@@ -1,6 +1,6 @@
 (* Check/BlockPointsLemmas.v — lemmas over the table REGENERATED from /repo/block/*.go on every run
    (coq/gen/BlockPoints.v).  Exact-list form (DESIGN 2.8): the operations that are not cancellable on the
-   pinned tree are listed by function, kind and channel text; a new one, a removed one or a changed one
+   current tree (after the repairs ca974a2, c53a06a, 03584e7) are listed by function, kind and channel text; a new one, a removed one or a changed one
    breaks the equality.  Domain of these lemmas: the finite regenerated table. *)
 From Coq Require Import String List Bool.
 From Verif Require Import Model.StopProto Proofs.StopProtoProofs gen.BlockPoints.
@@ -11,28 +11,16 @@ Definition describe (p : bpoint) : string * string * string := (bp_func p, bp_ki
 
 Lemma non_cancellable_today :
   map describe (non_cancellable block_points) =
-  [ ("AggregationLoop", "sleep", "delay");
-    ("AggregationLoop", "send", "errCh");
-    ("AggregationLoop", "send", "errCh");
-    ("publishBlockInternal", "wait", "g.Wait");
-    ("SyncLoop", "send", "errCh");
-    ("SyncLoop", "send", "errCh");
-    ("SyncLoop", "send", "errCh");
-    ("handlePotentialData", "send", "m.dataInCh");
-    ("handlePotentialHeader", "send", "m.headerInCh");
-    ("HeaderStoreRetrieveLoop", "send", "m.headerInCh");
-    ("DataStoreRetrieveLoop", "send", "m.dataInCh");
-    ("DAIncluderLoop", "send", "errCh");
-    ("DAIncluderLoop", "send", "errCh") ].
+  [ ("publishBlockInternal", "wait", "g.Wait") ].
 Proof. vm_compute. reflexivity. Qed.
 
 (* which loops have only cancellable blocking operations *)
 Lemma loops_cancellable_today :
   map (fun r => (fst r, all_cancellable block_points (snd r))) loop_reach =
-  [ ("AggregationLoop", false); ("SyncLoop", false); ("RetrieveLoop", false);
-    ("HeaderStoreRetrieveLoop", false); ("DataStoreRetrieveLoop", false);
+  [ ("AggregationLoop", false); ("SyncLoop", true); ("RetrieveLoop", true);
+    ("HeaderStoreRetrieveLoop", true); ("DataStoreRetrieveLoop", true);
     ("HeaderSubmissionLoop", true); ("DataSubmissionLoop", true);
-    ("DAIncluderLoop", false); ("Reaper.Start", true) ].
+    ("DAIncluderLoop", true); ("Reaper.Start", true) ].
 Proof. vm_compute. reflexivity. Qed.
 
 (* every loop root exists in the source and every loop has at least one cancellable select *)
